@@ -508,6 +508,16 @@ func gen(t *rapid.T) Scenario {
 	if rapid.IntRange(0, 2).Draw(t, "role") == 0 {
 		sc.Role = "server"
 	}
+	if rapid.IntRange(0, 24).Draw(t, "crowd") == 0 {
+		// a crowd: 40-200 requests whose handlers all wait for a nested request of their own at the
+		// same time (the peer answers them only at the end)
+		sc.Queue = 16
+		k := rapid.SampledFrom([]int{40, 140, 200}).Draw(t, "crowdsize")
+		for id := 0; id < k; id++ {
+			sc.Events = append(sc.Events, Event{Kind: "inject", ID: id, Beh: "nested", Depth: 1, Con: rapid.Bool().Draw(t, "con")})
+		}
+		return sc
+	}
 	n := rapid.IntRange(1, 14).Draw(t, "nev")
 	allPlain := rapid.IntRange(0, 4).Draw(t, "allplain") == 0
 	id, app := 0, 0
@@ -633,12 +643,15 @@ func TestCheck(t *testing.T) {
 					break
 				}
 			}
+			if len(sc.Events) >= 40 {
+				cls = append(cls, "dispatch/crowd-of-40-to-200-handlers-waiting-at-once")
+			}
 			r.Case("dispatch", key, func() any { return sc }, cls...)
 		}
 		return f
 	})
 	r.Main(evid.Meta{
-		Rule:        udpsrv.Rule + ". " + discsim.RuleDup + ". Others: a connection (datagram and stream, receive queue 0/1/16, generous request limits or the library's defaults of one outstanding request) in a synctest bubble; the scripted peer injects numbered requests whose handlers return at once, block on 1-3 sequential requests (GETs or observe registrations) issued on the same connection, or block on a gate, or stay busy without blocking; message IDs of the peer's choosing, some of them equal or close to the IDs the library itself is about to use or half the ID space away; messages arrive one by one (quiescence in between) or in bursts that pile up in the receive queue; it answers the nested requests after delivering further messages, other goroutines issue requests meanwhile (some of them never acknowledged or answered by the peer, so that they time out), the connection may be closed at a generated point; Oracle: every message injected while the connection is open reaches the handler exactly once; every nested request completes with its own response (so later messages — among them the awaited response — are processed while a handler waits); every handler finishes once gates are open and nested requests answered; application requests complete; with only non-blocking handlers and no other user of the connection the dispatch order equals the arrival order. Non-trivial = a handler waits on a nested request while a further message arrives; distinct by scenario",
+		Rule:        udpsrv.Rule + ". " + discsim.RuleDup + ". Others: a connection (datagram and stream, receive queue 0/1/16, generous request limits or the library's defaults of one outstanding request) in a synctest bubble; the scripted peer injects numbered requests whose handlers return at once, block on 1-3 sequential requests (GETs or observe registrations) issued on the same connection, or block on a gate, or stay busy without blocking; in a twenty-fifth of the cases a crowd of 40-200 requests whose handlers all wait for their nested request at the same time; message IDs of the peer's choosing, some of them equal or close to the IDs the library itself is about to use or half the ID space away; messages arrive one by one (quiescence in between) or in bursts that pile up in the receive queue; it answers the nested requests after delivering further messages, other goroutines issue requests meanwhile (some of them never acknowledged or answered by the peer, so that they time out), the connection may be closed at a generated point; Oracle: every message injected while the connection is open reaches the handler exactly once; every nested request completes with its own response (so later messages — among them the awaited response — are processed while a handler waits); every handler finishes once gates are open and nested requests answered; application requests complete; with only non-blocking handlers and no other user of the connection the dispatch order equals the arrival order. Non-trivial = a handler waits on a nested request while a further message arrives; distinct by scenario",
 		Assumptions: []string{"a handler that blocks on something other than its own connection (the gate) legitimately stalls later messages until it returns", "after close nothing is required of undelivered messages"},
 		Floor:       300,
 	}, eng, udpsrv.Engine(r, []string{"closed", "monclose", "monclose", "twolocal"}, 10, 250), discsim.Engine(r, "dup", 4, 100))
